@@ -38,6 +38,13 @@ class MDecimal:
     def __init__(self, real):
         self.real = to_real(real)
 
+    def quantize(self, exp, rounding=None):
+        """Round to the exponent of `exp` (a concrete Decimal such as Decimal('0.0')) under the given rounding mode."""
+        if not isinstance(exp, decimal.Decimal):
+            raise Unsupported('quantize with a symbolic exponent')
+        n = -exp.as_tuple().exponent
+        return MDecimal(round_real(self.real, n, rounding or CURRENT['rounding']))
+
 
 class MCtx:
     __symbolic__ = True
@@ -68,6 +75,8 @@ def m_decimal(it, br, v=0):
         return MDecimal(v.real)
     if is_sym(v):
         return MDecimal(v)
+    if isinstance(v, (str, int, float)):
+        return decimal.Decimal(v)
     raise Unsupported('Decimal of ' + type(v).__name__)
 
 
